@@ -34,7 +34,8 @@ class MergeExtractor(BaseExtractor):
         direct_source: Optional[Union[Table, SubQuery]] = None
         segments = list_child_segments(statement)
         for i, segment in enumerate(segments):
-            if segment.type == "merge_match":
+            if segment.type == "merge_match" and holder.write:
+                # without a target table identified, there's no column lineage to build
                 merge_match = segment
                 for merge_when_matched_clause in merge_match.get_children(
                     "merge_when_matched_clause"
